@@ -40,7 +40,7 @@ Inductive exn :=
   | U_IncompleteRead | U_InvalidChunkLength | U_InvalidHeader | U_LocationValueError | U_LocationParseError | U_MaxRetryError
   | E_MessageDefect | U_NewConnectionError | U_NameResolutionError | U_ProxyError | U_URLSchemeUnknown | U_ProxySchemeUnknown
   | U_ProxySchemeUnsupported | U_ReadTimeoutError | U_ResponseError | U_ResponseNotChunked | U_SSLError | U_TimeoutStateError
-  | U_UnrewindableBodyError
+  | U_UnrewindableBodyError | T_TokenError
 .
 
 Definition all_exn : list exn :=
@@ -61,7 +61,7 @@ Definition all_exn : list exn :=
    U_IncompleteRead; U_InvalidChunkLength; U_InvalidHeader; U_LocationValueError; U_LocationParseError; U_MaxRetryError;
    E_MessageDefect; U_NewConnectionError; U_NameResolutionError; U_ProxyError; U_URLSchemeUnknown; U_ProxySchemeUnknown;
    U_ProxySchemeUnsupported; U_ReadTimeoutError; U_ResponseError; U_ResponseNotChunked; U_SSLError; U_TimeoutStateError;
-   U_UnrewindableBodyError].
+   U_UnrewindableBodyError; T_TokenError].
 
 Definition exn_name (e : exn) : string :=
   match e with
@@ -168,6 +168,7 @@ Definition exn_name (e : exn) : string :=
   | U_SSLError => "urllib3.exceptions.SSLError"
   | U_TimeoutStateError => "urllib3.exceptions.TimeoutStateError"
   | U_UnrewindableBodyError => "urllib3.exceptions.UnrewindableBodyError"
+  | T_TokenError => "tokenize.TokenError"
   end%string.
 
 (* direct bases, in __bases__ order (object omitted) *)
@@ -276,6 +277,7 @@ Definition bases (e : exn) : list exn :=
   | U_SSLError => [U_HTTPError]
   | U_TimeoutStateError => [U_HTTPError]
   | U_UnrewindableBodyError => [U_HTTPError]
+  | T_TokenError => [B_Exception]
   end.
 
 Definition exn_code (e : exn) : Z :=
@@ -383,6 +385,7 @@ Definition exn_code (e : exn) : Z :=
   | U_SSLError => 100
   | U_TimeoutStateError => 101
   | U_UnrewindableBodyError => 102
+  | T_TokenError => 103
   end.
 
 Definition exn_eqb (a b : exn) : bool := exn_code a =? exn_code b.
